@@ -24,6 +24,25 @@ import common  # noqa: E402
 from common import Infra, VERIF  # noqa: E402
 
 
+def canon_lines(mod, ops, lines):
+    """optional per-module canonicalisation of an output line (applied to BOTH sides before comparing)"""
+    f = getattr(mod, 'canon', None)
+    return list(lines) if f is None else [f(o, l) for o, l in zip(ops, lines)]
+
+
+class CanonSide:
+    """the model driver / the implementation with the module's canonicalisation applied"""
+
+    def __init__(self, mod, driver):
+        self.mod, self.driver = mod, driver
+
+    def run(self, ops):
+        return canon_lines(self.mod, ops, self.driver.run(ops))
+
+    def impl(self, ops):
+        return canon_lines(self.mod, ops, self.mod.impl_exec(ops))
+
+
 class Ctx:
     def __init__(self, prop, tier, seed, shard=0, nshards=1, workdir=None):
         self.prop, self.tier, self.seed = prop, tier, seed
@@ -39,6 +58,19 @@ class Ctx:
         self.counters[key] = self.counters.get(key, 0) + n
 
 
+def corpus_cases(prop):
+    """minimised past disagreements (corpus/<prop>/*.ops, one case per file): always run first"""
+    d = os.path.join(VERIF, 'corpus', prop)
+    out = []
+    if os.path.isdir(d):
+        for f in sorted(os.listdir(d)):
+            if f.endswith('.ops'):
+                ops = [l for l in open(os.path.join(d, f)).read().split('\n') if l.strip()]
+                if ops:
+                    out.append(common.Case(ops, {'kind': 'corpus', 'file': f}))
+    return out
+
+
 def run_shard(args):
     """generate this shard's cases, run both sides, return stats + (unshrunk) diffs"""
     prop, tier, seed, shard, nshards, workdir = args
@@ -46,7 +78,7 @@ def run_shard(args):
         mod = importlib.import_module('p' + prop)
         ctx = Ctx(prop, tier, seed, shard, nshards, workdir)
         driver = common.ModelDriver()
-        cases = list(mod.cases(ctx))
+        cases = (corpus_cases(prop) if shard == 0 else []) + list(mod.cases(ctx))
         flat, spans = [], []
         for c in cases:
             spans.append((len(flat), len(flat) + len(c.ops)))
@@ -64,7 +96,8 @@ def run_shard(args):
                 raise
             except Exception as e:  # an unexpected exception of the real code is a behaviour
                 got = [f'EXC {type(e).__name__}: {e}'] * len(c.ops)
-            exp = model_out[a:b]
+            exp = canon_lines(mod, c.ops, model_out[a:b])
+            got = canon_lines(mod, c.ops, got)
             evals += len(c.ops)
             keys = mod.nontrivial(c, got) if hasattr(mod, 'nontrivial') else c.ops
             for key in keys:
@@ -109,10 +142,10 @@ def replay(prop, path):
     if not ok:
         print(out[-3000:])
         return 2
-    driver = common.ModelDriver()
+    driver = CanonSide(mod, common.ModelDriver())
     exp = driver.run(ops)
     try:
-        got = mod.impl_exec(ops)
+        got = driver.impl(ops)
     except Exception as e:
         got = [f'EXC {type(e).__name__}: {e}'] * len(ops)
     bad = 0
@@ -236,14 +269,14 @@ def run_check(prop, tier, seed, workdir, t_start, jobs):
     known = [(k, t) for (p, k, t) in known if p == prop]
     violations, known_hits = [], {}
     broken_corr = []
-    driver = common.ModelDriver()
+    driver = CanonSide(mod, common.ModelDriver())
     n_more = sum(1 for d in raw_diffs if d is None)
     for d in [d for d in raw_diffs if d is not None]:
-        ops = common.shrink_case(d['ops'], mod.impl_exec, driver,
+        ops = common.shrink_case(d['ops'], driver.impl, driver,
                                  keep_first=getattr(mod, 'KEEP_FIRST', 1))
         exp = driver.run(ops)
         try:
-            got = mod.impl_exec(ops)
+            got = driver.impl(ops)
         except Exception as e:
             got = [f'EXC {type(e).__name__}: {e}'] * len(ops)
         key = mod.classify(ops, exp, got) if hasattr(mod, 'classify') else 'diff'
